@@ -37,20 +37,62 @@ class WriterFacts:
         self.dirty_field = [n for n, t in self.fields.items() if t == "bool"]
         self.header_field = [n for n, t in self.fields.items() if t == "header::Header"]
         self.recnum_field = [n for n, t in self.fields.items() if t in ("u32", "i32", "usize", "u64")]
-        for nm, lst in (("shp", self.shp_field), ("shx", self.shx_field), ("dirty", self.dirty_field),
-                        ("header", self.header_field), ("rec_num", self.recnum_field)):
+        for nm, lst in (("shp", self.shp_field), ("shx", self.shx_field), ("header", self.header_field)):
             if len(lst) != 1:
                 self.problems.append("cannot identify the %s field of ShapeWriter by type (candidates %s)" % (nm, lst))
                 self.ok = False
         if not self.ok:
             return
-        self.shp_field, self.shx_field = self.shp_field[0], self.shx_field[0]
-        self.dirty_field, self.header_field, self.recnum_field = self.dirty_field[0], self.header_field[0], self.recnum_field[0]
+        self.shp_field, self.shx_field, self.header_field = self.shp_field[0], self.shx_field[0], self.header_field[0]
+        # dirty flag and record counter by role when their type is not unique:
+        #   dirty   = the bool field finalize branches on first;  rec_num = the integer field written as the record number
+        if len(self.dirty_field) != 1 or len(self.recnum_field) != 1:
+            self._by_role()
+        for nm, lst in (("dirty", self.dirty_field), ("rec_num", self.recnum_field)):
+            if len(lst) != 1:
+                self.problems.append("cannot identify the %s field of ShapeWriter (candidates %s)" % (nm, lst))
+                self.ok = False
+        if not self.ok:
+            return
+        self.dirty_field, self.recnum_field = self.dirty_field[0], self.recnum_field[0]
         self.SHP = ('ref', selfpath(self.shp_field))
         self.SHX = ('ref', (SELF, (('f', self.shx_field), ('v', 'Some'), ('f', '0'))))
         self.type_term = ('discr', field_load(self.header_field, 'shape_type'))
         self.shx_term = ('discr', field_load(self.shx_field))
         self.dirty_term = field_load(self.dirty_field)
+
+    def _by_role(self):
+        F = self.F
+        fin = F.inherent_method("writer::ShapeWriter", "finalize")
+        if fin and len(self.dirty_field) != 1:
+            try:
+                ps, _ = util.run_fn(F, fin[0])
+                cand = []
+                for p in ps:
+                    for t, v in p.cons[:1]:
+                        if t[0] == 'load' and t[1][0] == SELF and len(t[1][1]) == 1 and t[1][1][0][1] in self.dirty_field:
+                            cand.append(t[1][1][0][1])
+                if cand and len(set(cand)) == 1:
+                    self.dirty_field = [cand[0]]
+            except absint.Unanalysable:
+                pass
+        ws = F.inherent_method("writer::ShapeWriter", "write_shape")
+        if ws and len(self.recnum_field) != 1:
+            try:
+                ps, _ = util.run_fn(F, ws[0])
+                cand = set()
+                for p in ps:
+                    be = [e for e in p.io() if e[1] == 'write' and e[3].get('endian') == 'BigEndian' and e[3].get('ty') == 'i32'
+                          and e[4] != ('int', 9994)]
+                    # record number = the BE i32 written two primitives before the LE type code of the record
+                    for e in be:
+                        v = e[4][1] if e[4][0] == 'cast' else e[4]
+                        if v[0] == 'load' and v[1][0] == SELF and len(v[1][1]) == 1 and v[1][1][0][1] in self.recnum_field:
+                            cand.add(v[1][1][0][1])
+                if len(cand) == 1:
+                    self.recnum_field = [cand.pop()]
+            except absint.Unanalysable:
+                pass
 
     def dest_name(self, recv):
         if recv == self.SHP:
